@@ -3,7 +3,7 @@
    round trips every dictionary value goes through (quantities: C18; equations: C19); that the objects rebuilt by the real
    readers have the original's physical content is established by the correspondence check (harness/c12.py) - see the manifest. *)
 From Coq Require Import NArith ZArith List Lia Bool.
-From Verif Require Import Num Units ReactionText ReactionTextFacts UnitText UnitTextFacts Schemas Dict DictFacts DictRoundTrip.
+From Verif Require Import Num Units ReactionText ReactionTextFacts UnitText UnitTextFacts Schemas Dict DictFacts DictRoundTrip ObjDict ObjRoundTrip.
 
 (* all key aliases a reader accepts are interchangeable: renaming a key into a synonym of the same field changes neither whether
    the dictionary is accepted nor the value read for any field (any schema, any dictionary) *)
@@ -12,7 +12,7 @@ Theorem C12_aliases_interchangeable : forall (A : Type) sc (d : dict A) k k',
 Proof. exact alias_interchangeable. Qed.
 Print Assumptions C12_aliases_interchangeable.
 
-(* the twelve synonym tables are well formed (no key is a synonym of two fields), so the hypothesis above holds for any two synonyms
+(* the thirteen key tables are well formed (no key is a synonym of two fields), so the hypothesis above holds for any two synonyms
    of one field; and every key a writer emits is the primary key of a field its reader knows *)
 Theorem C12_schemas_wellformed : forallb wf_schema all_schemas = true.
 Proof. exact schemas_wellformed. Qed.
@@ -25,7 +25,7 @@ Print Assumptions C12_written_keys_are_read.
 (* the tables above are regenerated from /repo's source on every run (harness/translate_schemas.py); over them also: every key a
    reader looks up in the processed dictionary is a primary key (so what an alias or the writer provides is found), every field a
    reader accepts is looked up (nothing accepted is ignored; `type` is read by the dispatching rdspace_from_dict), and every field
-   of a reader is emitted by its writer (nothing is dropped on the way out) - for all twelve reader / writer pairs *)
+   of a reader is emitted by its writer (nothing is dropped on the way out) - for all thirteen reader / writer pairs (the twelve *_from_dict / *_to_dict pairs and load_rdtrajectory / save_rdtrajectory) *)
 Theorem C12_lookups_are_primary_keys : forallb (fun p : list str * schema => reads_primary (fst p) (snd p)) uses_and_readers = true.
 Proof. exact readers_read_primaries. Qed.
 Print Assumptions C12_lookups_are_primary_keys.
@@ -38,7 +38,7 @@ Theorem C12_every_field_is_written : forallb (fun p : list str * schema => field
 Proof. exact writers_write_every_field. Qed.
 Print Assumptions C12_every_field_is_written.
 
-(* key-level round trip, for every well-formed schema (hence, by the two computations, each of the twelve): a dictionary giving every
+(* key-level round trip, for every well-formed schema (hence, by the two computations, each of the thirteen): a dictionary giving every
    present field under its primary key - what the writers emit - passes the key processing and every field reads back exactly the
    value written, absent fields as absent *)
 Theorem C12_key_round_trip : forall (A : Type) sc (vals : list (option A)),
@@ -50,6 +50,22 @@ Print Assumptions C12_key_round_trip.
 Theorem C12_schemas_have_no_empty_field : forallb (fun sc : schema => forallb (fun syn => match syn with nil => false | _ => true end) sc) all_schemas = true.
 Proof. exact schemas_nonempty. Qed.
 Print Assumptions C12_schemas_have_no_empty_field.
+
+(* object level, two kinds of objects modelled in full (Model/ObjDict.v, tied to species_to_dict / species_from_dict /
+   unitssystem_to_dict / unitssystem_from_dict by the correspondence): a units system reads back as itself; a species reads back
+   with the same label, chemostat flags and units system and with every diffusion coefficient and density - single or per
+   environment - bit-identical in value and equivalent in unit, whatever units system the parent has (float text as in C18) *)
+Theorem C12_units_system_roundtrip : forall u, read_usys (write_usys wr u) = Ok u.
+Proof. exact usys_roundtrip. Qed.
+Print Assumptions C12_units_system_roundtrip.
+
+Theorem C12_species_roundtrip : forall (F : Type) (parse_float : str -> option F) (print_float : F -> str) (zero : F),
+  (forall x, parse_float (print_float x) = Some x) -> (forall x, existsb is_space (print_float x) = false) ->
+  (forall x, print_float x <> nil) ->
+  forall parent (s : species_obj F), wf_species F s ->
+  exists s', read_species F parse_float zero parent (write_species F print_float wr s) = Ok s' /\ species_equiv F s s'.
+Proof. exact species_roundtrip. Qed.
+Print Assumptions C12_species_roundtrip.
 
 (* what the writers put into the dictionaries reads back: every quantity is written as str(UnitValue) (C18) ... *)
 Theorem C12_quantity_text : forall (F : Type) (parse_float : str -> option F) (print_float : F -> str) (zero : F),
